@@ -6,6 +6,7 @@ import io
 import itertools
 import json
 import os
+import time
 import shutil
 
 from vp import asm, gen, workload
@@ -214,6 +215,13 @@ def run_shard(ctx):
         # import-only forms as well (a rule may key on the import alone)
         for (m_, n_) in [(mm, nn) for mm in ("collections", "vp_sink", "os") for nn in gen.SPECIAL_NAMES]:
             items.append(("voc-import", gen.push_global("GLOBAL", m_, n_) + b"."))
+        # constants that compare equal yet are different values / kinds, each in its own pickle of the same shape
+        # (a table of "already seen" constants keyed by equality would hand one pickle the other's constant)
+        import pickle as _pk
+        for grp in ((0.0, -0.0), (1, True, 1.0), (0, False, 0.0, -0.0), ("a", b"a"), (2 ** 31, 2147483648.0), ((1,), (1.0,), (True,))):
+            for c in grp:
+                for pr in (0, 2, 4):
+                    items.append((f"twin-constant-{c!r}-p{pr}", _pk.dumps([c, 1.5, {"k": c}], pr)))
         seen_o = set()
         items = [x for x in items if not (x[1] in seen_o or seen_o.add(x[1]))]
         if order == "rev":
@@ -233,7 +241,9 @@ def run_shard(ctx):
         qs_here = QUERIES if not order else ["check_safety", "unparse", "to_dict", "properties"]
         if big:
             qs_here = [q for q in qs_here if not q.startswith("trace")]
+        t_base = time.time()
         base = {q: answer(f, analysis, tracing, f.Pickled.load(data), q) for q in qs_here}
+        t_base = time.time() - t_base
         ch = h(data)
         nontrivial = not str(base["unparse"]).startswith("EXC:") and len(p0) >= 3
         digest = hashlib.sha1(repr(sorted(base.items())).encode("utf-8", "replace")).hexdigest()[:12]
@@ -245,8 +255,12 @@ def run_shard(ctx):
                                          "unparse": str(base["unparse"])[:160],
                                          "severity": base["check_safety"][0] if isinstance(base["check_safety"], tuple) else base["check_safety"]}):
             continue
-        if base["dumps"] != data[:len(base["dumps"])] if isinstance(base["dumps"], bytes) else False:
-            pass   # byte-exactness is C06's
+        if t_base > 6.0:
+            # one round of questions takes seconds (shared sub-structures are walked once per reference by the analyses):
+            # the ~60 further rounds below would make this shard a straggler; the first answers are in the cross-process
+            # table all the same.  (a bound on work, never a verdict)
+            agg.count("slow_inputs_first_answers_only")
+            continue
         # re-parsed copies that sat elsewhere in their stream: the answers may only depend on the bytes
         try:
             st = io.BytesIO(b"JUNKJUNKJUNK" + data)
